@@ -240,3 +240,28 @@ Proof.
   destruct (e_write_ok e); cbn [negb]; [|eexists; reflexivity].
   destruct (e_reply e); eexists; reflexivity.
 Qed.
+
+(* ---- several connections of the same component: the k-th digest depends on the k-th
+   stream id and the secret only ---- *)
+Lemma handshakes_nth secret ids k id :
+  nth_error ids k = Some id ->
+  nth_error (handshakes secret ids) k = Some (hex (sha1 (id ++ secret))).
+Proof. intros H. unfold handshakes. rewrite (map_nth_error _ _ _ H). reflexivity. Qed.
+
+Lemma handshakes_length secret ids : length (handshakes secret ids) = length ids.
+Proof. unfold handshakes. apply map_length. Qed.
+
+Lemma sessions_nth secret es k e :
+  nth_error es k = Some e ->
+  nth_error (component_sessions secret es) k = Some (component_connect secret e).
+Proof. intros H. unfold component_sessions. exact (map_nth_error _ _ _ H). Qed.
+
+Lemma sessions_written_nth secret es k e id :
+  nth_error es k = Some e -> e_pre e = PConnected id -> e_write_ok e = true ->
+  exists r, nth_error (component_sessions secret es) k = Some r /\
+            r_written r = [open_tag ++ hex (sha1 (id ++ secret)) ++ close_tag].
+Proof.
+  intros H Hp Hw. exists (component_connect secret e). split.
+  - exact (sessions_nth secret es k e H).
+  - exact (written_def secret e id Hp Hw).
+Qed.
